@@ -202,6 +202,50 @@ func TwoO(a In, b In) Out         { return Out{} }
 	return out
 }
 
+// outputResolutionCases: a package whose output location already holds a package with another name (the existing name
+// must be kept) is referenced by a sibling package of the same run through extend / map|FUNC / default. What the
+// referenced package's own converter is written to must not depend on the sibling.
+func outputResolutionCases() []xconvCase {
+	types := "type In struct{ Name string }\ntype Out struct{ Name string }\n\nfunc Fn(s string) string { return s + \"!\" }\nfunc NewOut() Out { return Out{} }\n"
+	var out []xconvCase
+	for _, ref := range []string{"extend", "map", "default"} {
+		for _, first := range []string{"pa", "pz"} { // the referencing package sorts before / after the referenced one
+			conv, meth := "", ""
+			switch ref {
+			case "extend":
+				conv = "// goverter:extend vx/pb:Fn\n"
+			case "map":
+				meth = "\t// goverter:map Name | vx/pb:Fn\n"
+			case "default":
+				meth = "\t// goverter:default vx/pb:NewOut\n"
+			}
+			if ref != "default" {
+				// the referencing package does not import the referenced one in its Go source (own types)
+				own := "type In struct{ Name string }\ntype Out struct{ Name string }\n"
+				out = append(out, xconvCase{
+					name: fmt.Sprintf("output-existing-package-name-kept-%s-from-%s-without-import", ref, first),
+					files: map[string]string{
+						"pb/b.go":                  "package pb\n\n" + types + "\n// goverter:converter\ntype B interface {\n\tConvert(source In) Out\n}\n",
+						"pb/generated/existing.go": "package bgen\n\n// Existing keeps the package name of this directory.\nconst Existing = 1\n",
+						first + "/a.go":            "package " + first + "\n\n" + own + "\n// goverter:converter\n" + conv + "type A interface {\n" + meth + "\tConvert(source In) Out\n}\n",
+					},
+					pkgs: []string{"./" + first, "./pb"},
+				})
+			}
+			out = append(out, xconvCase{
+				name: fmt.Sprintf("output-existing-package-name-kept-%s-from-%s", ref, first),
+				files: map[string]string{
+					"pb/b.go":                 "package pb\n\n" + types + "\n// goverter:converter\ntype B interface {\n\tConvert(source In) Out\n}\n",
+					"pb/generated/existing.go": "package bgen\n\n// Existing keeps the package name of this directory.\nconst Existing = 1\n",
+					first + "/a.go":            "package " + first + "\n\nimport \"vx/pb\"\n\n// goverter:converter\n" + conv + "type A interface {\n" + meth + "\tConvert(source pb.In) pb.Out\n}\n",
+				},
+				pkgs: []string{"./" + first, "./pb"},
+			})
+		}
+	}
+	return out
+}
+
 func (c xconvCase) tree() fshist.Tree {
 	t := fshist.Tree{"go.mod": {Data: []byte("module vx\n\ngo 1.22\n"), Mode: 0o644}}
 	for p, s := range c.files {
@@ -231,7 +275,7 @@ func RunXConvFiltered(run *ev.Run, prefix string) int {
 	var wg sync.WaitGroup
 	sem := make(chan bool, nWorkers)
 	nruns := 0
-	for ci, c := range append(xconvCases(), roleLeakCases()...) {
+	for ci, c := range append(append(xconvCases(), roleLeakCases()...), outputResolutionCases()...) {
 		if !strings.HasPrefix(c.name, prefix) {
 			continue
 		}
